@@ -25,20 +25,25 @@ NAMES = [b'AAA ', b'BBB ', b'CCC ']
 F_1000 = b'\x43\x3e\x80\x00'   # 1000.0
 F_900 = b'\x43\x38\x40\x00'    # 900.0
 F_1100 = b'\x43\x44\xc0\x00'   # 1100.0
+F_1001 = b'\x43\x3e\x90\x00'   # 1001.0
+F_999 = b'\x43\x3e\x70\x00'    # 999.0
 F_HALF = b'\x40\x80\x00\x00'   # 0.5
 F_ZERO = b'\x00\x00\x00\x00'
 
 
-def first_block(nch, inc):
+def first_block(nch, inc, near=False):
     b = b'\x00\x02\x00\x00' + b'D' * 72 + b'\x00\x0a\x00\x18\x00' + b'U' * 75 + b'\x00\x12\x00\x0b\x00\x06  '
     b = b + bytes([0, nch]) + b'\x00\x00'
     for i in range(20):
         b = b + (NAMES[i] if i < 3 else b'    ')
-    b = b + F_1000 + (F_1100 if inc else F_900) + F_HALF + F_ZERO + F_ZERO + b'TAILTAIL'
+    # near: the header range ends after 3 frames (1000 .. 1001 / 999) although more frames are recorded (padded last block): X carries on
+    stop = (F_1001 if inc else F_999) if near else (F_1100 if inc else F_900)
+    b = b + F_1000 + stop + F_HALF + F_ZERO + F_ZERO + b'TAILTAIL'
     return b
 
 
 FIRST = {(n, i): first_block(n, i) for n in (1, 2, 3) for i in (False, True)}
+FIRST_NEAR = {(n, i): first_block(n, i, True) for n in (1, 2, 3) for i in (False, True)}
 
 
 def value_bytes(k, c, j, s):
@@ -89,13 +94,13 @@ def _check_array(bfa, nch, frames, syms, inc):
     return True
 
 
-def check_blocks(nch: int, nb: int, f0: int, f1: int, inc: bool) -> bool:
+def check_blocks(nch: int, nb: int, f0: int, f1: int, inc: bool, near: bool = False) -> bool:
     """
     pre: 1 <= nch <= 3 and 1 <= nb <= 2
     pre: 1 <= f0 <= 3 and 1 <= f1 <= 3
     post: _
     """
-    return _blocks(nch, nb, f0, f1, 5, 6, inc)
+    return _blocks(nch, nb, f0, f1, 5, 6, inc, near)
 
 
 def check_blocks_data(nch: int, nb: int, f0: int, f1: int, s0: int, s1: int, inc: bool) -> bool:
@@ -122,8 +127,8 @@ def _gen_tuples(b):
         offset += 4
 
 
-def _blocks(nch, nb, f0, f1, s0, s1, inc):
-    tb = ReadBIT.TifMarkedBytes(0, ReadBIT.TifType.DATA, FIRST[(nch, inc)])
+def _blocks(nch, nb, f0, f1, s0, s1, inc, near=False):
+    tb = ReadBIT.TifMarkedBytes(0, ReadBIT.TifType.DATA, (FIRST_NEAR if near else FIRST)[(nch, inc)])
     bfa = ReadBIT.BITFrameArray('0', tb)
     frames = [f0, f1][:nb]
     syms = [s0, s1]
@@ -138,13 +143,13 @@ def _tif(ty, prev, nxt):
     return _PY_STRUCT.pack(ty, prev, nxt)
 
 
-def build_file(passes):
+def build_file(passes, near=False):
     """passes: list of (nch, inc, [payload blocks]).  Returns the TIF-marked file bytes."""
     out = b''
     prev = 0
     pos = 0
     for nch, inc, blocks in passes:
-        for pl in [FIRST[(nch, inc)]] + blocks:
+        for pl in [(FIRST_NEAR if near else FIRST)[(nch, inc)]] + blocks:
             nxt = pos + 12 + len(pl)
             out = out + _tif(0, prev, nxt) + pl
             prev, pos = pos, nxt
@@ -155,7 +160,7 @@ def build_file(passes):
     return out
 
 
-def check_file(npass: int, nch: int, nb: int, f0: int, f1: int, inc: bool) -> bool:
+def check_file(npass: int, nch: int, nb: int, f0: int, f1: int, inc: bool, near: bool = False) -> bool:
     """
     pre: 1 <= npass <= 2 and 1 <= nch <= 2 and 1 <= nb <= 2
     pre: 1 <= f0 <= 2 and 1 <= f1 <= 2
@@ -166,7 +171,7 @@ def check_file(npass: int, nch: int, nb: int, f0: int, f1: int, inc: bool) -> bo
     passes = []
     for p in range(npass):
         passes.append((nch, inc, [data_block(k, nch, frames[k], syms[k]) for k in range(nb)]))
-    f = SymFile(build_file(passes))
+    f = SymFile(build_file(passes, near))
     got = ReadBIT.create_bit_frame_array_from_file(f)
     mark.hit()
     if len(got) != npass:
